@@ -21,6 +21,7 @@ package yang
 import (
 	"fmt"
 	"sort"
+	"strings"
 	"sync"
 )
 
@@ -265,6 +266,12 @@ func (ms *Modules) FindModule(n Node) *Module {
 	}
 	if n := m[name]; n != nil {
 		return n
+	}
+
+	// The name is looked for as a file. A module name is an identifier; do not
+	// let one that is a path make us read whatever file it names.
+	if strings.ContainsAny(rev, "/\\") {
+		return nil
 	}
 
 	// Try to read first a module by revision
